@@ -108,6 +108,9 @@ DIRECTED = [
     ('BitArray', '0' * 16, [['set', [1, {'range': [-16, 0, 2]}]]]),                           # D(ii) negative bounds
     ('BitArray', '0' * 16, [['set', [1, {'range': [0, 21, 3]}]]]),                            # D(ii) beyond the end
     ('BitArray', '0' * 16, [['set', [1, {'range': [0, 16, 2]}]]]),                            # neighbour: plain range
+    ('BitArray', '0' * 16, [['set', [1, {'range': [-20, -12, 1]}]]]),                         # starts below -len: IndexError, nothing set
+    ('BitStream', '0' * 16, [['set', [1, {'range': [-20, 0, 3]}]], ['invert', [{'range': [-17, -1, 1]}]]]),
+    ('BitArray', '0' * 16, [['set', [1, {'range': [-16, -12, 1]}]], ['set', [0, {'range': [-16, 0, 1]}]]]),   # neighbours: valid negative ranges
     ('BitArray', '0' * 16, [['setitem_int', [[None, None, -2], 1]]]),                         # D(iii)
     ('BitArray', '0' * 16, [['setitem_int', [[None, None, 2], 1]]]),                          # neighbour
     ('BitArray', '0110' * 4, [['overwrite', [['self'], 4]]]),                                 # D(iv)
